@@ -107,8 +107,10 @@ claim("C17", "exploration",
 claim("C03", "exploration",
       "Per-call contract of get_key/_key_name/decodable/could_be_unfinished_* proved for every byte string of every length 1..MAX+1 "
       "(symbolic bytes, three encodings, three naming modes, full and not full): known keys named from the tables, more input asked "
-      "only for prefixes / characters that can still grow, no failure unless the bytes are neither; table facts evaluated; the "
-      "stream-level clauses are decided by the exhaustive decision-tree walk (complete for ascii, latin-1) and two-item streams.",
+      "only for prefixes / characters that can still grow, no failure unless the bytes are neither; table facts evaluated; at stream "
+      "level the real cutting loop Input._send.find_key is proved to consume the buffered bytes in order without losing or duplicating one "
+      "and to cut at the first prefix the decoder recognises (any buffer length, loop invariant); which cuts those are is decided by the "
+      "exhaustive decision-tree walk (complete for ascii, latin-1) and two-item streams.",
       "Level is exploration because the stream-level statement has a listed known finding (prefix key followed by a non-ASCII byte "
       "in one read); decode validity per spec/utf8.py (validated against CPython); quick tier proves lengths 1-4, MAX, MAX+1.",
       "contract-based deductive verification on symbolic bytes (complete per call) + exhaustive decision-tree walk", "DESIGN 9/C03")
@@ -157,12 +159,14 @@ claim("C12", "exploration",
       "and there is a listed known finding (pipe leak of threadsafe_event_trigger).",
       "contract-based deductive verification over a ghost OS state (protocol runs of the real bodies) + pty-based bounded checking", "DESIGN 9/C12")
 claim("C08", "exploration",
-      "Bounded only: every history of <=3 (thorough 4) operations over a 19-operation alphabet x 4 paste thresholds on a real pipe/pty "
-      "with a substituted clock and callbacks injected inside select (before / during the wait), bursts straddling the 1024-byte read, "
-      "seeded random histories, and a few real two-thread runs; oracle = reference queue model written from the statement.",
-      "No deductive claim: the property quantifies over thread schedules and signal timing, which sequential contracts cannot express "
-      "(DESIGN 10); only injection at the wait is covered.  Known findings: read ending inside a character; ESC + non-ASCII.",
-      "bounded history checking against a reference queue model (no deductive claim: schedules/IO timing)", "DESIGN 9/C08 and 10")
+      "Bounded: every history of <=3 (thorough 4) operations over a 19-operation alphabet x 4 paste thresholds on a real pipe/pty with a "
+      "substituted clock and callbacks injected inside select (before / during the wait), bursts straddling the 1024-byte read, seeded random "
+      "histories, and a few real two-thread runs; oracle = reference queue model written from the statement.  Deductive sub-result: the byte "
+      "accounting of Input._send.find_key for every buffer (no byte lost, duplicated or reordered; cut at the first recognised prefix; None only "
+      "for an empty buffer; ValueError only when no prefix is recognised).",
+      "The property quantifies over thread schedules and signal timing, which sequential contracts cannot express (DESIGN 10); only injection "
+      "at the wait is covered; queues/clock/select are bounded only.  Known findings: read ending inside a character; key prefix + non-ASCII.",
+      "bounded history checking against a reference queue model + contract-based deductive verification of the byte accounting of find_key", "DESIGN 9/C08 and 10")
 
 ALL = [f"C{i:02d}" for i in range(1, 21)]
 NA_REASON = "check not built yet in this session (work in progress; see DESIGN.md section 9 for the plan)"
